@@ -9,6 +9,7 @@ import math
 import numpy as np
 
 import framework as fw
+from props import raylib
 
 LEVEL = "proof"
 USE_TWINS = True
@@ -397,7 +398,7 @@ def record(tr, desc):
     try:
         return _record(tr, desc)
     except Exception as e:
-        return {"error": "%s: %s" % (type(e).__name__, str(e)[:200]), "exists": None, "rho": float("nan"), "n": 0,
+        return {"error": raylib.error_text(e), "exists": None, "rho": float("nan"), "n": 0,
                 "sols": []}
     finally:
         logging.disable(logging.NOTSET)
@@ -540,8 +541,7 @@ def relation_failures(desc, base, moved, swapped, rot):
     if out:
         return out
     errs = [rec.get("error") for rec in (base, moved, swapped)]
-    k17 = lambda e: e and ("is NaN; solver cannot continue" in e or "cannot convert float infinity to integer" in e)
-    if desc["tracer"] in ("basic", "spec") and all(k17(e) for e in errs):
+    if desc["tracer"] in ("basic", "spec", "layered") and all(raylib.is_k17(e) for e in errs):
         # finding K17: brentq of the installed scipy rejects the NaN that _direct_r(max_angle) produces when
         # sin(max_angle)*n0/n(z1) rounds above 1; raised identically for all three geometries
         return [("known:K17", errs[0])]
@@ -816,6 +816,9 @@ def oracle_buffers(run, d):
     A += np.array([1000.0, -500.0, 0.0])            # the caller re-uses its buffer before anything was evaluated
     got = record(tr, d2)
     run.case(("oracle-buffers",) + tuple(sorted((k, str(v)) for k, v in d.items())), nontrivial=ref["n"] > 0)
+    for rec in (ref, got):
+        if "error" in rec:
+            return raylib.tracer_exception(run, rec["error"], "crash", d, "caller-owned buffers")
     if not close_records(ref, got):
         run.fail_input("aliasing", d, observed=summary(got), expected=summary(ref),
                        what="the tracer shares the caller's endpoint array: modifying it after construction changes the result")
@@ -831,9 +834,19 @@ def oracle_call_forms(run, d):
     ice = make_ice(d)
     tr = make_tracer(d, d["A"], d["B"], ice)
     run.case(("oracle-call-forms",) + tuple(sorted((k, str(v)) for k, v in d.items())), nontrivial=True)
+    import logging
+    logging.disable(logging.CRITICAL)
     try:
         with np.errstate(all="ignore"):
-            for p in tr.solutions:
+            sols = list(tr.solutions)
+            [(p.path_length, p.tof) for p in sols]
+    except Exception as e:
+        return raylib.tracer_exception(run, e, "crash", d, "attenuation call forms (while solving)")
+    finally:
+        logging.disable(logging.NOTSET)
+    try:
+        with np.errstate(all="ignore"):
+            for p in sols:
                 ref = np.asarray(p.attenuation(FREQS), float)
                 forms = {"float": [p.attenuation(float(f)) for f in FREQS],
                          "np.float64": [p.attenuation(np.float64(f)) for f in FREQS],
@@ -878,11 +891,9 @@ def oracle_boundary_limit(run, d):
         return True        # the layered tracer drops / merges legs of zero length at a boundary: count is not continuous
     if near_threshold(on) or near_threshold(inside):
         return True
-    k17 = lambda rec: "error" in rec and ("is NaN; solver cannot continue" in rec["error"] or
-                                          "cannot convert float infinity" in rec["error"])
-    if k17(on) and k17(inside):
-        run.known_finding("K17")
-        return True
+    for rec in (on, inside):
+        if "error" in rec:
+            return raylib.tracer_exception(run, rec["error"], "crash", d, "endpoint on / just inside a bound of the ice")
     ok = "error" not in on and "error" not in inside and on["n"] == inside["n"] and on["exists"] == inside["exists"] and \
         all(abs(x["len"] - y["len"]) <= 1e-4 * max(1.0, y["len"]) + 25 * max(x["noise"], y["noise"])
             for x, y in zip(on["sols"], inside["sols"]))
@@ -962,6 +973,14 @@ def oracle_order(run, cases=None):
     there = json.loads(line[0][2:])
     for i, d in enumerate(cases):
         a, b = here[i], there[str(i)]
+        if isinstance(a, str) or isinstance(b, str):
+            if a != b or not raylib.tracer_exception(run, a if isinstance(a, str) else b, "crash", d,
+                                                     "evaluation-order oracle"):
+                if a != b:
+                    run.fail_input("order-dependence", {"cases": cases, "index": i}, observed=a, expected=b,
+                                   what="a tracer raises in one evaluation order only (case %d)" % i)
+                return False
+            continue
         same = a == b if isinstance(a, str) or isinstance(b, str) else (
             a["n"] == b["n"] and all(fw.close(x["len"], y["len"], 1e-12, 0) and fw.close(x["tof"], y["tof"], 1e-12, 0)
                                      for x, y in zip(a["sols"], b["sols"])))
